@@ -103,8 +103,9 @@ class SteerResult(EnergyResult):
 
 
 class SteerCalc(Calculator):
-    def __init__(self, prio_table=None, salt=0, rank=0):
+    def __init__(self, prio_table=None, salt=0, rank=0, default_prio=0.0):
         self.prio_table = dict(prio_table or {})
+        self.default_prio = default_prio
         self.salt = salt
         self.rank = rank
         self.comment = "steering calculator (verification harness)"
@@ -114,16 +115,17 @@ class SteerCalc(Calculator):
         key = kkey(data_K.Kpoint)
         return SteerResult(Energies=[np.array([0.0, 1.0])], data=vdata(key, self.salt, self.rank),
                            transformTR=transform_ident, transformInv=transform_ident, rank=self.rank,
-                           E_titles=["Efermi"], save_mode="bin", comment="steer", prio=self.prio_table.get(key, 0.0))
+                           E_titles=["Efermi"], save_mode="bin", comment="steer", prio=self.prio_table.get(key, self.default_prio))
 
 
 def prio_table(history):
     """history = [[keys refined at iteration 0], [keys refined at iteration 1], ...]"""
     D = len(history)
+    step = min(40, 300 // max(D, 1))        # 10**(step*D) must stay a finite float for the deep descents
     t = {}
     for i, keys in enumerate(history):
         for j, k in enumerate(keys):
-            t[tuple(k)] = 10.0 ** (40 * (D - i)) * (1.0 - 0.1 * j)
+            t[tuple(k)] = 10.0 ** (step * (D - i)) * (1.0 - 0.1 * j)
     return t
 
 
